@@ -183,11 +183,15 @@ acc_read (const void *src, int size)
 	arena_buf_t *b = arena_find (src);
 	if (!b) return 0;
     }
+    /* The callbacks ARE the storage layer (think of a byte-swapping frame
+     * buffer wrapper): what sits in memory is the pixel value xor 0x5a in every
+     * byte.  An access that bypasses the callbacks therefore shows in the
+     * pixels, not only in a call counter. */
     switch (size)
     {
-    case 1: return *(const uint8_t *)src;
-    case 2: return *(const uint16_t *)src;
-    case 4: return *(const uint32_t *)src;
+    case 1: return *(const uint8_t *)src ^ 0x5au;
+    case 2: return *(const uint16_t *)src ^ 0x5a5au;
+    case 4: return *(const uint32_t *)src ^ 0x5a5a5a5au;
     default: return 0;
     }
 }
@@ -203,9 +207,9 @@ acc_write (void *dst, uint32_t value, int size)
     }
     switch (size)
     {
-    case 1: *(uint8_t *)dst = (uint8_t)value; break;
-    case 2: *(uint16_t *)dst = (uint16_t)value; break;
-    case 4: *(uint32_t *)dst = value; break;
+    case 1: *(uint8_t *)dst = (uint8_t)(value ^ 0x5au); break;
+    case 2: *(uint16_t *)dst = (uint16_t)(value ^ 0x5a5au); break;
+    case 4: *(uint32_t *)dst = value ^ 0x5a5a5a5au; break;
     default: break;
     }
 }
@@ -592,8 +596,13 @@ apply_prop (pixman_image_t *img, pixman_format_code_t fmt, int is_bits, int mop,
 	return 1;
     case MOP_SET_ACCESSORS:
 	if (!is_bits || PIXMAN_FORMAT_BPP (fmt) > 32) return 1;
-	if (sim_mod (A (1), 2)) pixman_image_set_accessors (img, acc_read, acc_write);
-	else pixman_image_set_accessors (img, NULL, NULL);
+	/* 0 none, 1 and 3 both, 2 read-only (legal for an image that is only ever read) */
+	switch (sim_mod (A (1), 4))
+	{
+	case 0: pixman_image_set_accessors (img, NULL, NULL); break;
+	case 2: pixman_image_set_accessors (img, acc_read, NULL); break;
+	default: pixman_image_set_accessors (img, acc_read, acc_write); break;
+	}
 	return 1;
     case MOP_SET_INDEXED:
 	if (!is_bits || !fmt_is_indexed (fmt)) return 1;
@@ -831,7 +840,7 @@ step_image_op (machine_t *m, const sim_op_t *op, const int64_t *a, int n, mstep_
 	{
 	    s->prop[pk] = *op;
 	    s->prop_set[pk] = 1;
-	    if (op->kind == MOP_SET_ACCESSORS) s->accessors = (int)sim_mod (A (1), 2);
+	    if (op->kind == MOP_SET_ACCESSORS) { int md = (int)sim_mod (A (1), 4); s->accessors = md == 3 ? 1 : md; }
 	}
 	return;
     }
@@ -851,6 +860,17 @@ set_active (machine_t *m, int s0, int s1, int s2)
 	m->active[m->n_active++] = v[i];
 	if (m->img[v[i]].has_alpha >= 0) m->active[m->n_active++] = m->img[v[i]].has_alpha;
     }
+}
+
+/* an image whose write accessor is NULL while the read accessor is set can
+ * only be read: drawing to it would call a NULL pointer (caller error) */
+static int
+read_only (machine_t *m, int slot)
+{
+    if (slot < 0) return 0;
+    if (m->img[slot].accessors == 2) return 1;
+    if (m->img[slot].has_alpha >= 0 && m->img[m->img[slot].has_alpha].accessors == 2) return 1;
+    return 0;
 }
 
 static void
@@ -909,7 +929,7 @@ step_draw_op (machine_t *m, const sim_op_t *op, const int64_t *a, int n, mstep_t
     {
 	int src = (int)sim_mod (A (1), M_NIMG), mask = A (2) < 0 ? -1 : (int)sim_mod (A (2), M_NIMG), dst = (int)sim_mod (A (3), M_NIMG);
 	if (!img_ok (m, src) || !img_ok (m, dst) || (mask >= 0 && !img_ok (m, mask))) return;
-	if (m->img[dst].kind != MOP_BITS) return;
+	if ((m->img[dst].kind != MOP_BITS || read_only (m, dst))) return;
 	if (shares_storage (m, src, dst) || shares_storage (m, mask, dst)) return;
 	st->executed = 1;
 	mark_draw (m, st, dst);
@@ -926,7 +946,7 @@ step_draw_op (machine_t *m, const sim_op_t *op, const int64_t *a, int n, mstep_t
 	int dst = (int)sim_mod (A (1), M_NIMG), cnt = (int)sim_clamp (A (6), 0, 20), i;
 	pixman_color_t c = decode_color (a, n, 2);
 	pixman_box32_t b[20];
-	if (!img_ok (m, dst) || m->img[dst].kind != MOP_BITS) return;
+	if (!img_ok (m, dst) || (m->img[dst].kind != MOP_BITS || read_only (m, dst))) return;
 	for (i = 0; i < cnt; i++)
 	{
 	    b[i].x1 = (int32_t)sim_clamp (A (7 + 4 * i), -40000, 40000); b[i].y1 = (int32_t)sim_clamp (A (8 + 4 * i), -40000, 40000);
@@ -945,7 +965,7 @@ step_draw_op (machine_t *m, const sim_op_t *op, const int64_t *a, int n, mstep_t
 	int dst = (int)sim_mod (A (1), M_NIMG), cnt = (int)sim_clamp (A (6), 0, 20), i;
 	pixman_color_t c = decode_color (a, n, 2);
 	pixman_rectangle16_t r[20];
-	if (!img_ok (m, dst) || m->img[dst].kind != MOP_BITS) return;
+	if (!img_ok (m, dst) || (m->img[dst].kind != MOP_BITS || read_only (m, dst))) return;
 	for (i = 0; i < cnt; i++)
 	{
 	    r[i].x = (int16_t)sim_clamp (A (7 + 4 * i), -32768, 32767); r[i].y = (int16_t)sim_clamp (A (8 + 4 * i), -32768, 32767);
@@ -996,7 +1016,7 @@ step_draw_op (machine_t *m, const sim_op_t *op, const int64_t *a, int n, mstep_t
     {
 	int dst = (int)sim_mod (A (0), M_NIMG), cnt = (int)sim_clamp (A (3), 0, 8), i;
 	pixman_trap_t t[8];
-	if (!img_ok (m, dst) || m->img[dst].kind != MOP_BITS || !alpha_only (m->img[dst].fmt)) return;
+	if (!img_ok (m, dst) || (m->img[dst].kind != MOP_BITS || read_only (m, dst)) || !alpha_only (m->img[dst].fmt)) return;
 	for (i = 0; i < cnt; i++)
 	{
 	    int b = 4 + 6 * i;
@@ -1014,7 +1034,7 @@ step_draw_op (machine_t *m, const sim_op_t *op, const int64_t *a, int n, mstep_t
     {
 	int dst = (int)sim_mod (A (0), M_NIMG), cnt = op->kind == MOP_RASTERIZE_TRAP ? 1 : (int)sim_clamp (A (3), 0, 6), i;
 	pixman_trapezoid_t t[6];
-	if (!img_ok (m, dst) || m->img[dst].kind != MOP_BITS || !alpha_only (m->img[dst].fmt)) return;
+	if (!img_ok (m, dst) || (m->img[dst].kind != MOP_BITS || read_only (m, dst)) || !alpha_only (m->img[dst].fmt)) return;
 	for (i = 0; i < cnt; i++) decode_trapezoid (a, n, (op->kind == MOP_RASTERIZE_TRAP ? 3 : 4) + 10 * i, &t[i]);
 	st->executed = 1;
 	mark_draw (m, st, dst);
@@ -1030,7 +1050,7 @@ step_draw_op (machine_t *m, const sim_op_t *op, const int64_t *a, int n, mstep_t
     {
 	int src = (int)sim_mod (A (1), M_NIMG), dst = (int)sim_mod (A (2), M_NIMG), cnt = (int)sim_clamp (A (8), 0, 6), i;
 	pixman_format_code_t mf = mask_formats[sim_mod (A (3), 3)];
-	if (!img_ok (m, src) || !img_ok (m, dst) || m->img[dst].kind != MOP_BITS || shares_storage (m, src, dst)) return;
+	if (!img_ok (m, src) || !img_ok (m, dst) || (m->img[dst].kind != MOP_BITS || read_only (m, dst)) || shares_storage (m, src, dst)) return;
 	st->executed = 1;
 	mark_draw (m, st, dst);
 	set_active (m, src, dst, -1);
@@ -1061,7 +1081,7 @@ step_draw_op (machine_t *m, const sim_op_t *op, const int64_t *a, int n, mstep_t
     {
 	int dst = (int)sim_mod (A (0), M_NIMG), cnt = (int)sim_clamp (A (3), 0, 6), i;
 	pixman_triangle_t t[6];
-	if (!img_ok (m, dst) || m->img[dst].kind != MOP_BITS || !alpha_only (m->img[dst].fmt)) return;
+	if (!img_ok (m, dst) || (m->img[dst].kind != MOP_BITS || read_only (m, dst)) || !alpha_only (m->img[dst].fmt)) return;
 	for (i = 0; i < cnt; i++)
 	{
 	    int b = 4 + 6 * i;
@@ -1152,7 +1172,7 @@ step_glyph_op (machine_t *m, const sim_op_t *op, const int64_t *a, int n, mstep_
 	int src = (int)sim_mod (A (1), M_NIMG), dst = (int)sim_mod (A (2), M_NIMG), cnt = (int)sim_clamp (A (14), 0, 12), i, ng = 0;
 	pixman_glyph_t g[12];
 	int frozen_here = 0;
-	if (!m->gc[c] || !img_ok (m, src) || !img_ok (m, dst) || m->img[dst].kind != MOP_BITS || shares_storage (m, src, dst)) return;
+	if (!m->gc[c] || !img_ok (m, src) || !img_ok (m, dst) || (m->img[dst].kind != MOP_BITS || read_only (m, dst)) || shares_storage (m, src, dst)) return;
 	st->executed = 1;
 	mark_draw (m, st, dst);
 	set_active (m, src, dst, -1);
@@ -1321,7 +1341,7 @@ step_misc_op (machine_t *m, const sim_op_t *op, const int64_t *a, int n, mstep_t
     {
 	int src = (int)sim_mod (A (0), M_NIMG), mask = A (1) < 0 ? -1 : (int)sim_mod (A (1), M_NIMG), dst = (int)sim_mod (A (2), M_NIMG);
 	pixman_region16_t r;
-	if (!img_ok (m, src) || !img_ok (m, dst) || (mask >= 0 && !img_ok (m, mask)) || m->img[dst].kind != MOP_BITS) return;
+	if (!img_ok (m, src) || !img_ok (m, dst) || (mask >= 0 && !img_ok (m, mask)) || (m->img[dst].kind != MOP_BITS || read_only (m, dst))) return;
 	st->executed = 1; st->has_status = 1;
 	pixman_region_init (&r);
 	st->ret = pixman_compute_composite_region (&r, m->img[src].img, mask >= 0 ? m->img[mask].img : NULL, m->img[dst].img,
